@@ -65,6 +65,60 @@ class HoldPolicy(vsched.Policy):
         return default if default != i else others[0]
 
 
+class PriorityPolicy(vsched.Policy):
+    """strict priorities among the user-level threads: `order` lists callers / closer / 'reconnect' (the first reconnect thread,
+    and every further one not listed by its own name) from high to low, every other thread (workers, main) comes before them; a thread runs only while no thread of higher
+    priority can.  `drop = (cls, k)`: the first thread of that class falls behind all others after its k-th quantum — one
+    priority change point.  The class of schedules in which whole activities (a request that connects anew, the end of a
+    connection, a disconnect()) are ordered one after the other, with one thread stopped half way: what a bounded number
+    of preemptions or one held thread does not reach when three or more activities have to be ordered."""
+
+    def __init__(self, order, drop=None):
+        self.order = list(order)
+        self.drop = drop
+        self.quanta = {}
+        self.dropped = None
+
+    def _cls(self, name):
+        if name in self.order:
+            return name
+        return 'reconnect' if name.rstrip('0123456789') == 'reconnect' else name
+
+    def _prio(self, name):
+        if name == self.dropped:
+            return len(self.order) + 1
+        c = self._cls(name)
+        return self.order.index(c) + 1 if c in self.order else 0
+
+    def choose(self, enabled, default, step, labels):
+        names = [t.name for t in enabled]
+        while True:
+            best = min(self._prio(n) for n in names)
+            cand = [j for j, n in enumerate(names) if self._prio(n) == best]
+            c = default if default in cand else cand[0]
+            n = names[c]
+            if self.drop and self.dropped is None and self._cls(n) == self.drop[0]:
+                if self.quanta.get(n, 0) >= self.drop[1]:
+                    self.dropped = n
+                    continue
+                self.quanta[n] = self.quanta.get(n, 0) + 1
+            return c
+
+
+def priority_schedules(case, rng, limit, kmax=40):
+    """(order, drop) pairs for a case: all orders of its user-level threads x which class is stopped x after how many quanta;
+    a random sample of `limit` of them when there are more"""
+    import itertools
+    names = hold_targets(case) + (['reconnect', 'reconnect2'] if case.get('activate') else [])
+    orders = list(itertools.permutations(names))
+    if len(orders) > 24:
+        orders = rng.sample(orders, 24)
+    allp = [(list(o), (d, k)) for o in orders for d in names for k in range(kmax)]
+    if len(allp) > limit:
+        allp = rng.sample(allp, limit)
+    return allp
+
+
 def hold_targets(case):
     return ['c%d' % i for i in range(len(case['callers']))] + (['closer'] if case.get('closer') is not None else [])
 
@@ -1042,6 +1096,10 @@ def catalogue():
         {'name': 'activated client, peer drop, user disconnect and a request at once; what is left when all is at rest',
          'callers': [rp], 'activate': True, 'closer': {'delay': 0}, 'settle': 25,
          'peer': {'reconnect': 'accept', 'rules': [{'on': 'read m:p', 'emit': [[0, reply_line(rp, 101)]], 'drop': 0.0}]}},
+        {'name': 'activated client, two connections lost in a row (two reconnect threads), user disconnect at once; at rest',
+         'callers': [rp, rq], 'activate': True, 'closer': {'delay': 0}, 'settle': 25,
+         'peer': {'reconnect': 'accept', 'rules': [{'on': 'read m:p', 'emit': [[0, reply_line(rp, 101)]], 'drop': 0.0},
+                                                   {'on': 'read m:q', 'emit': [[0, reply_line(rq, 102)]], 'drop': 0.0}]}},
         {'name': 'activated client, a request after the peer drop (reconnect by the caller or by the reconnect thread)',
          'callers': [rp, dict(rq, delay=0.3)], 'activate': True,
          'peer': {'reconnect': 'accept', 'rules': [{'on': 'read m:p', 'emit': [[0, reply_line(rp, 101)]], 'drop': 0.0},
@@ -1194,7 +1252,10 @@ def assess(case, schedule, obs, L, replay_ans, judge_ans, res, ctx, shut_ans=Non
         else:
             fin = replay_ans['final']
             ids = L['ids']
-            reconnected = any(e[1] == 'c.new' for e in obs['events'][1:] if e[0] != 'main')
+            # (a connect() body that ran - even without an attempt: the flag was set - has replaced the queues)
+            i0 = next((i for i, e in enumerate(obs['events']) if e[1] == 'start'), 0)
+            reconnected = (any(e[1] == 'c.new' for e in obs['events'][1:] if e[0] != 'main')
+                           or any(e[1] == 'q.new' for e in obs['events'][i0:]))
             impl = obs['impl_final']
             if not reconnected and 'error' not in impl:
                 im = {'active': sorted(ids.get(x, -1) for x in impl['active']),
@@ -1341,8 +1402,8 @@ def conn_sig(events, k):
 
 
 def conn_stream(ctx, res):
-    scripts = [list(x) for x in CONN_CATALOGUE] + [gen_conn_script(ctx.rng) for _ in range(ctx.budget(40, 500))]
-    nfake = len(CONN_CATALOGUE) + ctx.budget(25, 300)
+    scripts = [list(x) for x in CONN_CATALOGUE] + [gen_conn_script(ctx.rng) for _ in range(ctx.budget(40, 300))]
+    nfake = len(CONN_CATALOGUE) + ctx.budget(25, 200)
     cases = [('tcp', sc) for sc in scripts] + [('fake', sc) for sc in scripts[:nfake]]
     runs = [(impl, sc, run_conn(impl, sc)) for impl, sc in cases]
     answers = ctx.driver.batch([{'p': 'C11', 'k': 'conn', 'events': ev} for _, _, ev in runs])
@@ -1554,7 +1615,7 @@ def run(ctx):
             c = json.load(open(os.path.join(cdir, fn)))
             do(c['case'], vsched.ReplayThenDefault(c['schedule']))
     # ---------- the catalogue, systematically ----------
-    per_case = ctx.budget(160, 1500)
+    per_case = ctx.budget(150, 900)
     for case in catalogue():
         res.count('catalogue-scenarios')
         case = {k: v for k, v in case.items() if k != 'name'}
@@ -1566,8 +1627,15 @@ def run(ctx):
             for k in range(ctx.budget(10, 40)):
                 res.count('hold-schedules')
                 do(case, HoldPolicy(name, k))
+        if case.get('activate') and case.get('settle'):
+            # whole activities ordered one after the other, one thread stopped half way (reconnect threads against a user shutdown)
+            for order, drop in priority_schedules(case, rng, ctx.budget(100, 3000), 16):
+                res.count('priority-schedules')
+                do(case, PriorityPolicy(order, drop))
+                if len(runs) >= 3000:
+                    flush()
     # ---------- generated cases: a few systematic schedules, then random ones ----------
-    for _ in range(ctx.budget(160, 1000)):
+    for _ in range(ctx.budget(150, 550)):
         case = gen_case(rng, big)
         for prefix, obs in explore_case(case, 1 if not big else 2, ctx.budget(6, 30), rng):
             runs.append((case, effective_schedule(obs), obs))
